@@ -481,7 +481,11 @@ class FakeGSocket(object):
       n = len(data) // 2
       if n:
         conn.client_sent(data[:n])
-      self._sleep(float(d.arg or 0.05))
+      conn.writes_in_progress = getattr(conn, 'writes_in_progress', 0) + 1
+      try:
+        self._sleep(float(d.arg or 0.05))
+      finally:
+        conn.writes_in_progress -= 1
       self._check_open()
       if conn.dead:
         raise _err(errno.EPIPE)
